@@ -456,7 +456,7 @@ def _classify_cond(cn, block):
 def unit(run, tier=None, ndebug=True):
     from . import witness
     tier = tier or run.tier
-    pols = ["release", "debug", "p_def", "p_map", "p_noerr"] if tier == "quick" else ["release", "debug", "p_def", "p_map", "p_ind", "p_proj", "p_nohash", "p_throw", "p_noerr"]
+    pols = ["release", "debug", "p_def", "p_map", "p_noerr", "p_ind"] if tier == "quick" else ["release", "debug", "p_def", "p_map", "p_ind", "p_proj", "p_nohash", "p_throw", "p_noerr"]
     src, _ = witness.call_matrix(pols, ["rr", "r"], witness.update_block(pols))
     ast = astq.Ast(common.ast_json(run, src, "compiler_%s_%s" % (tier, "nd" if ndebug else "dbg"), ndebug=ndebug, funcs=COMPILER_FUNCS, cfg=CFG_FUNCS))
     run.units.append({"unit": "compiler AST", "policies": pols, "ndebug": ndebug, "functions_with_body": sum(1 for f in ast.funcs if f.get("body"))})
@@ -546,7 +546,7 @@ def lookup_rules(run, r_proj, r_null, ast):
                 problems.append("the looked-up pointer `%s` is not tested right after the look-up" % d["name"])
             else:
                 c = astq.strip(nxt["cond"])
-                isnull = (c.get("k") == "UnaryOperator" and c.get("op") == "!" and astq.strip(c["c"][0]).get("k") == "DeclRefExpr" and astq.strip(c["c"][0])["ref"]["did"] == d["did"])
+                isnull = astq.canon(nxt["cond"]) == ("null", "v#%s" % d["did"])
                 if not isnull:
                     problems.append("the statement after the look-up does not test `!%s`" % d["name"])
                 else:
@@ -631,10 +631,9 @@ def merge_rules(run, r_bases, r_ids, ast):
                     c0 = astq.strip(cn) if cn else {}
                     pushed = astq.strip(tb[0]["c"][1])["ref"]["did"]
                     owner = {x["ref"]["did"] for x in astq.walk(tb[0]["c"][0]) if x.get("k") == "DeclRefExpr"}
-                    if c0.get("k") == "BinaryOperator" and c0.get("op") == "!=" and pushed in dids and (owner & dids):
+                    if astq.canon(cn)[0] in ("not", "eq") and (astq.canon(cn) if astq.canon(cn)[0] == "eq" else astq.canon(cn)[1])[0] == "eq" and pushed in dids and (owner & dids):
                         continue        # the improper base (the class itself)
-                    if c0.get("k") == "UnaryOperator" and c0.get("op") == "!" and blk.get("termk") == "IfStmt" and astq.strip(c0["c"][0]).get("k") == "DeclRefExpr" \
-                            and astq.strip(c0["c"][0])["ref"]["did"] == astq.strip(tb[0]["c"][1])["ref"]["did"]:
+                    if blk.get("termk") == "IfStmt" and astq.canon(cn) in (("null", "v#%s" % astq.strip(tb[0]["c"][1])["ref"]["did"]), ("not", ("null", "v#%s" % astq.strip(tb[0]["c"][1])["ref"]["did"]))):
                         # null test of the looked-up base itself: its other outcome aborts (C15-update)
                         continue
                     bad.append(t)
@@ -1206,7 +1205,12 @@ def list_rules(run, r_link, r_reset, r_pair, r_idem, ast):
             run.instance(r_pair, "%s: the removal in %s is unconditional" % (T, short(f)[:70]), (f["file"], r["node"]["l"]), ok=not bad)
             for t in bad:
                 run.violation(r_pair, "static_list|conditional-remove|%s" % T, "the destructor's removal from `%s` is skipped depending on `%s`" % (lname, t), (f["file"], r["node"]["l"]))
-    # ---- idempotent definition registration
+    idem_rules(run, r_idem, ast)
+
+
+def idem_rules(run, r_idem, ast):
+    """add_function: a definition that is not yet registered is always pushed into its method's catalog (nothing else decides),
+    one that is already registered is not pushed again."""
     for f in [f for f in ast.funcs if f.get("body") and re.search(r"add_function<.*>::add_function$", f["name"])]:
         pb = [n for n in astq.walk(f["body"]) if n.get("k") == "CXXMemberCallExpr" and re.search(r"static_list<.*>::push_back$", n.get("callee") or "")]
         if len(pb) != 1:
@@ -1224,7 +1228,7 @@ def list_rules(run, r_link, r_reset, r_pair, r_idem, ast):
 
             def want(n):
                 return n is pb[0] or (n.get("k") == "BinaryOperator" and n.get("op") == "=" and _canon(n["c"][0], {}) == "info.method")
-            ps = astq.enum_paths(f["body"], decide, want)
+            ps = astq.enum_paths(f["body"], decide, want, loops="unroll1")
             res[registered] = [[("push" if n is pb[0] else "set-method") for k, n in p["events"]] for p in ps]
         ok = all("push" not in p for p in res[True]) and all(p == ["set-method", "push"] for p in res[False]) and res[False]
         run.instance(r_idem, "%s: a definition already registered is not pushed again; otherwise method is set, then pushed" % short(f)[:80], (f["file"], pb[0]["l"]), ok=bool(ok))
@@ -1406,7 +1410,8 @@ def reserve_rules(run, rule, ast):
                 mems = {y.get("member") for y in astq.walk(cn) if y.get("k") == "MemberExpr"}
                 if {"mark", "class_mark"} <= mems and any(y.get("k") == "DeclRefExpr" and y["ref"]["did"] == cls_param for y in astq.walk(c0)) and not _enclosing(parent, cn, ("CXXForRangeStmt", "ForStmt")):
                     continue                                   # visited check of the class itself at function entry
-                if c0.get("k") == "UnaryOperator" and c0.get("op") == "!" and "used_by_vp" in mems and "empty" in mems and len(mems) == 2:
+                cf = astq.canon(cn)
+                if cf[0] == "not" and cf[1][0] == "empty" and cf[1][1].endswith(".used_by_vp") and mems <= {"used_by_vp", "empty", "size"} and any(y.get("k") == "DeclRefExpr" and y["ref"]["did"] == cls_param for y in astq.walk(c0)):
                     continue                                   # class has virtual parameters
                 if c0.get("k") == "BinaryOperator" and c0.get("op") == "!=" and any(y.get("k") == "DeclRefExpr" and y["ref"]["did"] == cls_param for y in astq.walk(c0)):
                     loops = _enclosing(parent, c, ("CXXForRangeStmt",))
@@ -1511,7 +1516,11 @@ def applicable_rules(run, rule, ast):
                     dst_ok = any(x.get("k") == "DeclRefExpr" and x["ref"]["did"] == cls_param for x in astq.walk(n["c"][3])) and any(x.get("k") == "MemberExpr" and x.get("member") == "covariant_classes" for x in astq.walk(n["c"][3]))
                     cd = [c for c in (_cdep_conds(f, n) or []) if c[0] not in ("loop", "trace")] if "cfg" in f else []
                     # only the function's own 'already computed' early return may guard it
-                    cd = [c for c in cd if not (c[1] is not None and any(x.get("k") == "DeclRefExpr" and x["ref"]["did"] == cls_param for x in astq.walk(c[1])) and any(x.get("k") == "MemberExpr" and x.get("member") == "empty" for x in astq.walk(c[1])))]
+                    def _own_emptiness(cn):
+                        cf = astq.canon(cn)
+                        cf = cf[1] if cf[0] == "not" else cf
+                        return cf[0] == "empty" and cf[1].endswith("covariant_classes")
+                    cd = [c for c in cd if not (c[1] is not None and _own_emptiness(c[1]))]
                     union_ok = src_ok and dst_ok and not cd
                 if n.get("k") == "CXXMemberCallExpr" and (n.get("callee") or "").endswith("::calculate_covariant_classes"):
                     rec_ok = True
@@ -1639,7 +1648,7 @@ def table_rules(run, rule, ast):
                                 mk_ok = bool(i0) and any(y.get("k") == "DeclRefExpr" and y["ref"]["did"] == pd.get("candidates") for y in astq.walk(i0[0])) and any(
                                     y.get("k") == "DeclRefExpr" and y["ref"].get("dk") == "Binding" for y in astq.walk(i0[0]))
             ifs = [n for n in astq.walk(f["body"]) if n.get("k") == "IfStmt" and _in_subtree(n.get("else") or {"k": "x", "id": -5}, rec[0])]
-            zero = bool(ifs) and astq.strip(ifs[0]["cond"]).get("k") == "BinaryOperator" and astq.strip(ifs[0]["cond"]).get("op") == "==" and astq.affine(astq.strip(ifs[0]["cond"])["c"][0], {pd.get("dim"): {"dim": 1}}) == {"dim": 1} and astq.affine(astq.strip(ifs[0]["cond"])["c"][1]) == {}
+            zero = bool(ifs) and astq.canon(ifs[0]["cond"]) == ("zero", "v#%s" % pd.get("dim"))
             ok = dimv == {"dim": 1, 1: -1} and it_ok and mk_ok and zero
         run.instance(rule, "%s: recursion descends one dimension with candidates & group mask; cells are pushed at dimension 0 (row-major, dimension 0 fastest)" % short(f), (f["file"], rec[0]["l"] if rec else f["line"]), ok=ok)
         if not ok:
@@ -1661,6 +1670,10 @@ def table_rules(run, rule, ast):
         for uni in (True, False):
             for first in (True, False):
                 def decide(c, uni=uni, first=first):
+                    sy = lambda n: "arity" if (n.get("k") == "CXXMemberCallExpr" and (n.get("callee") or "").endswith("::arity")) else ("vp" if n.get("k") == "MemberExpr" and n.get("member") == "vp_index" else None)
+                    v = astq.eval_int_cond(c, sy, {"arity": 1 if uni else 2, "vp": 0 if first else 1})
+                    if v is not None:
+                        return v
                     c0 = astq.strip(c)
                     if c0.get("k") == "BinaryOperator" and c0.get("op") in ("==", "!=", ">", "<"):
                         l = astq.affine(c0["c"][0], {}, lambda n: "arity" if (n.get("k") == "CXXMemberCallExpr" and (n.get("callee") or "").endswith("::arity")) else ("vp" if n.get("k") == "MemberExpr" and n.get("member") == "vp_index" else None))
